@@ -50,8 +50,8 @@ def delegation(rep, prop, table, fname):
 
 def run(args):
     rep = C.Report("C02", "other", "jet comparison of the two arms of every small-angle switch feeding exp (R-JET), guarded division (R-DIV), delegation (R-FWD)")
-    nf, no = RJ.check(rep, "C02", VALUE_FUNCS, obs="return")
-    nf2, no2 = RJ.check(rep, "C02", {("manif::SGal3TangentBase", "fillE"), ("manif::SO3TangentBase", "ljac")}, obs="outputs")
+    nf, no = RJ.check(rep, "C02", VALUE_FUNCS, obs="return", clause="value", entire=True)
+    nf2, no2 = RJ.check(rep, "C02", {("manif::SGal3TangentBase", "fillE"), ("manif::SO3TangentBase", "ljac")}, obs="outputs", clause="value", entire=True)
     nd = delegation(rep, "C02", DELEGATION, "exp")
     rep.floor("switch_functions", nf, 4)
     rep.floor("observables_compared", no + no2, 10)
